@@ -77,11 +77,14 @@ def replay_serializer(rep):
 
 def run(rep):
     return generic.run_generic(
-        rep, [('sqlparse.formatter.validate_options', None)] + SITE_FUNCS[:4] + SITE_FUNCS[-1:] + [('sqlparse.filters.others.SerializerUnicode.process', None)],
+        rep, [('sqlparse.formatter.validate_options', None)] + SITE_FUNCS[:4] + SITE_FUNCS[-1:] + [('sqlparse.filters.others.SerializerUnicode.process', None),
+              ('sqlparse.filters.others.StripWhitespaceFilter._stripws_default', 'normal form')],
         structural=[replay_serializer, nl_obligations, stack_mapping],
         assumptions=['proved: the serializer joins lines that are right-stripped of every whitespace character (element '
                      'obligation of the real generator expression; str.rstrip() axiomatised as s == r ++ ws*, r not ending in '
-                     'a str.isspace character); StripWhitespaceFilter.process is total also on an empty statement',
+                     'a str.isspace character); StripWhitespaceFilter.process is total also on an empty statement; _stripws_default '
+                     'blanks a whitespace child that is first or follows a whitespace child and turns every other one into exactly '
+                     'one blank (loop invariant over the list order)',
                      'per-function normal forms (_stripws_default, _stripws_parenthesis, _stripws_identifierlist, '
                      'SpacesAroundOperatorsFilter._process, _split_kwds) are not yet under SMT contracts: shape obligations '
                      'over the AST plus the bounded stand-in (normal-form oracles on grammar scripts, fixed points)',
